@@ -699,6 +699,86 @@ func (cx *Ctx) singleEntryRule(r *Report, get func(Entry) *c13Walk) {
 		r.toolErr("service batch bodies not identified")
 		return
 	}
+	// ------------------------------------------------------------ same-block hand-off
+	// The expired-batch body schedules the next batch at (height − Timeout + Frequency),
+	// which IS the current height when Frequency == Timeout (the default). Such an entry
+	// is only ever looked at in this very block, so the iteration that consumes the
+	// new-batch list must come after the iteration that produces into it; in the other
+	// order the entry lands in a bucket that has already been drained and the context
+	// never issues another batch.
+	{
+		var itExp, itNew *Event
+		for _, x := range svcEnd.evs {
+			if x.ev.Kind != "store.iter" && x.ev.Kind != "store.riter" {
+				continue
+			}
+			switch {
+			case hasPrefix(x.ev, "service:ExpiredRequestBatchKey=0x09") && itExp == nil:
+				itExp = x.ev
+			case hasPrefix(x.ev, "service:NewRequestBatchKey=0x10") && itNew == nil:
+				itNew = x.ev
+			}
+		}
+		nHand := 0
+		for _, x := range svcEnd.evs {
+			if x.ev.Kind != "store.set" || !hasPrefix(x.ev, "service:NewRequestBatchKey=0x10") {
+				continue
+			}
+			cf, _ := closureAncestor(x.ev)
+			if cf == nil || cf.Fn != expBody {
+				continue
+			}
+			h := qKeyArg(x.ev, 1)
+			if strings.HasPrefix(h, "(sdk.Context.BlockHeight() + ") {
+				continue // strictly in the future (what is added is a validated positive)
+			}
+			nHand++
+			ok := itExp != nil && itNew != nil && orderedBefore(itExp, itNew)
+			r.check(ok, "same-block-handoff", "service.EndBlock|new-batch", x.ev.Pos(cx), "the next batch may fall due in the current block (height "+trunc(h, 90)+"); the new-batch list is drained after the expired-batch list that schedules it", "the expired-batch body schedules the next batch at height "+trunc(h, 120)+", which can equal the current height (frequency == timeout), but the new-batch list of this height is iterated before the expired-batch list: the entry is never processed and the context issues no further batch")
+		}
+		if nHand == 0 {
+			r.toolErr("no next-batch scheduling found in the expired-batch body")
+		}
+	}
+	// ------------------------------------------------------------ frequency ≥ timeout is kept
+	// The re-scheduling height (height − Timeout + Frequency) is not in the past only while
+	// Frequency ≥ Timeout. Every update of either field must hold ¬(frequency < timeout) on
+	// the very values it stores (the new one, or the kept one when the request leaves it 0).
+	{
+		nFT := 0
+		for _, e := range all {
+			if e.Module != "service" {
+				continue
+			}
+			cw := get(e)
+			kc := keyCounter{}
+			for _, x := range cw.evs {
+				var want func(t string) bool
+				v := ""
+				switch x.ev.Kind {
+				case "assign:RequestContext.Timeout":
+					v = x.ev.Args[0].LooseString()
+					want = func(t string) bool { return strings.HasPrefix(t, "(") && strings.HasSuffix(t, " < "+v+")") }
+				case "assign:RequestContext.RepeatedFrequency":
+					v = x.ev.Args[0].LooseString()
+					want = func(t string) bool { return strings.HasPrefix(t, "("+v+" < ") }
+				default:
+					continue
+				}
+				nFT++
+				ok := false
+				for _, f := range cw.w.FactsAt(x.ev.Fr, x.ev.Site) {
+					if !f.Holds && want(f.Text) {
+						ok = true
+					}
+				}
+				r.check(ok, "frequency-covers-timeout", kc.next(entryKey(&e)+"|"+strings.TrimPrefix(x.ev.Kind, "assign:RequestContext.")), x.ev.Pos(cx), "¬(frequency < timeout) holds on the stored values when "+strings.TrimPrefix(x.ev.Kind, "assign:")+" is updated", strings.TrimPrefix(x.ev.Kind, "assign:")+" is set to "+trunc(v, 120)+" without ¬(repeated frequency < timeout) decided on that very value: a context can end up with Timeout > RepeatedFrequency, and its next batch is then scheduled at a height that has already passed (never processed)")
+			}
+		}
+		if nFT < 2 {
+			r.toolErr("only %d updates of RequestContext.Timeout / RepeatedFrequency found (2 confirmed)", nFT)
+		}
+	}
 	nSingle := 0
 	for _, e := range all {
 		if e.Module != "service" && e.Module != "oracle" && e.Module != "random" {
@@ -775,7 +855,14 @@ func (cx *Ctx) closeDequeuesRule(r *Report, get func(Entry) *c13Walk) {
 
 // followedBy: whenever a executes, b executes afterwards (lifted to the lowest
 // common frame: every path from a's site to a success exit passes b's site).
-func followedBy(a, b *Event) bool {
+func followedBy(a, b *Event) bool { return followedByOpt(a, b, true) }
+
+// followedByCall: as followedBy, but b need only be reachable inside the call that is
+// passed on every path (a write-back helper that loops over the collection it stores:
+// the loop body is not a must of the helper, the helper call is a must of the caller).
+func followedByCall(a, b *Event) bool { return followedByOpt(a, b, false) }
+
+func followedByOpt(a, b *Event, below bool) bool {
 	chain := func(e *Event) []*Frame {
 		var c []*Frame
 		for f := e.Fr; f != nil; f = f.Parent {
@@ -792,8 +879,11 @@ func followedBy(a, b *Event) bool {
 		return false
 	}
 	sa, sb := siteOf(ca, i, a), siteOf(cb, i, b)
-	if sa == nil || sb == nil || sa.Parent() != sb.Parent() || !mustBelow(cb, i, b) {
+	if sa == nil || sb == nil || sa.Parent() != sb.Parent() || (below && !mustBelow(cb, i, b)) {
 		return false
+	}
+	if !below && i >= len(cb) {
+		return false // b itself sits in the common frame: nothing to relax
 	}
 	if sa.Block() == sb.Block() {
 		return instrIndex(sa) < instrIndex(sb)
